@@ -327,19 +327,20 @@ def run_c08(ctx):
     prf = sorted((x for x in rows if heavy(x)), key=lambda x: (sum(1 for o in x["ops"] if o["op"] == "revoke_prf"), json.dumps(x, sort_keys=True)))
     prf = [x for x in prf if sum(1 for o in x["ops"] if o["op"] == "revoke_prf") == 1]
     rows = [x for x in rows if not heavy(x)]
+    rows.sort(key=lambda x: json.dumps(x, sort_keys=True))
     if quick:
-        rows = [x for i, x in enumerate(rows) if len(x["ops"]) == 2 or i % 2 == 0]
+        rows = [x for i, x in enumerate(rows) if (len(x["ops"]) == 2 and i % 2 == 0) or i % 7 == 0 or x["ops"][-1].get("perturb") == "extra_sharing_coeff" and i % 2 == 0]
     else:
-        rows = [x for i, x in enumerate(rows) if i % 6 == 0]
+        rows = [x for i, x in enumerate(rows) if i % 18 == 0]
     want = 28 if quick else 160
     rows += prf[:: max(1, len(prf) // want)][:want + 8]
     # revocation by many shares: five revokers under identities near 2^32, thresholds 4 and 5
     rv = ctx.tlc(SPEC, "IdIssuance.tla", "IdIssuance_rev.cfg", workers=8, timeout=3000)
     big = [json.loads(x) for x in rv.replays]
-    big = [x for x in big if len(x["ops"]) == 3 and x["ops"][-1]["op"] == "revoke"]
+    big = sorted((x for x in big if len(x["ops"]) == 3 and x["ops"][-1]["op"] == "revoke"), key=lambda x: json.dumps(x, sort_keys=True))
     rows += big[:: (6 if quick else 1)]
     _row_check(ctx, "c08-replay", rows, "c08", {"request:v0": 50, "request:v1": 50, "create:true": 100, "create:false": 20, "verify:none": 20, "verify:bitflips": 20, "bitflip": 200,
-                                                 "verify:other_ip": 10, "verify:other_ar_key": 10, "verify:swap_ar_data": 4, "revoke:true": 20, "revoke:false": 5, "request:v0:4of5": 3, "request:v1:5of5": 3,
+                                                 "verify:other_ip": 10, "verify:other_ar_key": 10, "verify:swap_ar_data": 4, "verify:extra_sharing_coeff": 10, "revoke:true": 20, "revoke:false": 5, "request:v0:4of5": 2, "request:v1:5of5": 2,
                                                  "revoke_prf:true": 8, "revoke_prf:false": 1, "recover:none": 5, "recover:timestamp": 3, "recover:other_ip_identity": 3, "recover:other_ip_key": 3,
                                                  "recover:other_global": 3, "recover:id_cred_pub": 3, "recover:proof": 3}, parts=14)
     c = json.loads(json.dumps(next(x for x in rows if x["ops"][-1]["op"] == "revoke" and x["ops"][-1]["ok"] and x["ops"][1]["ok"])))
@@ -349,11 +350,11 @@ def run_c08(ctx):
     ctx.rule = ("IdIssuance.tla: every transition of the graph request(version, chosen revokers, threshold) -> create(counter in {0, 1, max, max+1}, revealed subset, new / existing account) -> "
                 "verify(perturbation) | revoke(subset) | revoke_prf(subset) | recover(perturbation) for N revokers (2 quick, 3 thorough; sampled); each behaviour replayed end to end with fresh holder secrets: identity request accepted by the "
                 "provider (v0 incl. the initial account credential on chain), credential creation iff counter <= max_accounts, chain verification iff unperturbed (ten single-bit flips of the "
-                "encoding per behaviour at varying positions, other provider / revoker key / global context / address / expiry, swapped revoker data), reconstruction of the public identity credential "
+                "encoding per behaviour at varying positions, other provider / revoker key / global context / address / expiry, swapped revoker data, one more sharing-coefficient commitment than the threshold re-signed by the holder), reconstruction of the public identity credential "
                 "iff at least threshold revokers decrypt; reconstruction of the PRF key from the shares encrypted in the identity request (eight 32-bit chunks per revoker, sampled behaviours) "
                 "iff at least threshold revokers decrypt; identity recovery requests validate iff provider identity and key, chain parameters, time, public identity credential and proof are untouched; "
                 "distinct = distinct behaviours")
-    ctx.assumptions += ["attribute lists have two attributes; identity provider and revoker keys are fixed seeded keys"]
+    ctx.assumptions += ["attribute lists have three attributes; identity provider and revoker keys are fixed seeded keys"]
 
 
 def run_c18(ctx):
